@@ -22,6 +22,12 @@ TRANSPARENT = {
     'core::result::Result::map_err': 0,
     'core::option::Option::ok_or': 0,
     'core::option::Option::ok_or_else': 0,
+    'core::option::Option::copied': 0,
+    'core::option::Option::cloned': 0,
+    'core::option::Option::as_ref': 0,
+    'core::option::Option::as_mut': 0,
+    'core::result::Result::as_ref': 0,
+    'core::result::Result::as_mut': 0,
 }
 
 
@@ -323,18 +329,38 @@ def outcomes(body, cs):
         if info['kind'] != 'variant':
             continue
         s = sem(body, info['place'])
-        hit = None
-        if s.kind == 'call' and s.cs is cs and s.proj == ():
-            hit = 'direct'
-        elif s.kind == 'branch' and s.extra is not None and s.extra.kind == 'call' and s.extra.cs is cs and s.extra.proj == () and s.proj == ():
-            hit = 'branch'
+
+        def tests(s_, depth=0):
+            """does a switch on a value of this origin examine the outcome of cs?  (merged values: if cs's value is
+            one of the definitions -- e.g. the results of two inlined helpers, or private copies made by threading)"""
+            if depth > 3 or s_.proj != ():
+                return None
+            if s_.kind == 'call' and s_.cs is cs:
+                return ('direct', None)
+            if s_.kind == 'branch' and s_.extra is not None:
+                inner = s_.extra
+                if inner.kind == 'call' and inner.cs is cs and inner.proj == ():
+                    return ('branch', s_.cs)
+                if inner.kind == 'place' and inner.extra == 'multi' and inner.proj == ():
+                    if any(a_.kind == 'call' and a_.cs is cs and a_.proj == () for a_ in sem_alts(body, inner)):
+                        return ('branch', s_.cs)
+                return None
+            if s_.kind == 'place' and s_.extra == 'multi':
+                for a_ in sem_alts(body, s_):
+                    r_ = tests(a_, depth + 1)
+                    if r_:
+                        return r_
+            return None
+        ht = tests(s)
+        hit = ht[0] if ht else None
+        bcs_ = ht[1] if ht else None
         if not hit:
             continue
         t = body.blocks[i]['term']
         # `?`: the Continue/Break arms also carry the variant names of the value that was branched on
         alias = {}
         if hit == 'branch':
-            bcs = s.cs
+            bcs = bcs_
             rn = (bcs.resolved or '') + ' ' + (bcs.gargs or '')
             if 'core::result::Result' in rn.split(' as ')[0]:
                 alias = {'Continue': 'Ok', 'Break': 'Err'}
@@ -508,6 +534,13 @@ def exits(body):
             if not pl['p'] and len(ds) == 1 and s.get('inl_ret') is None and ds[0][0] == 'assign' and ds[0][2].get('inl_ret') and depth < 4:
                 from_assign(ds[0][1], ds[0][2], depth + 1)
                 return
+            if not pl['p'] and len(ds) == 1 and s.get('inl_ret') and depth < 4 and l not in body.user_locals_named():
+                # `caller._0 = helper._0` written by the inliner: the exit is where the helper produced its value
+                if ds[0][0] == 'call':
+                    out.append({'node': ds[0][2].ret, 'kind': 'call', 'cs': ds[0][2]})
+                else:
+                    from_assign(ds[0][1], ds[0][2], depth + 1)
+                return
             sm = sem(body, a)
             out.append({'node': ('b', i), 'kind': 'copy', 'sem': sm, 'op': a, 'stmt': s})
         else:
@@ -604,10 +637,15 @@ def closure_has_upvar_field(body, o, field_idx):
 
 # ---- match arms / tables --------------------------------------------------------------------------
 
-def _trivial_target(body, node):
-    """follow an edge through empty goto/falseedge blocks; returns the first non-trivial block id"""
+def _trivial_target(body, node, place=None):
+    """follow an edge through empty goto/falseedge blocks -- and, when the matched place is given, through blocks that
+    only bind pattern variables from it (`x = (place as V).0`), as the arms of an or-pattern `A(x) | B(x) => ..` do
+    before they join; returns the first block that is the arm's own code"""
     guard = 0
     cur = node
+    key = None
+    if place is not None:
+        key = (place['l'], tuple(place['p']))
     while guard < 50:
         guard += 1
         ss = body.succ.get(cur, [])
@@ -616,8 +654,21 @@ def _trivial_target(body, node):
         nxt = ss[0]
         if cur[0] == 'b':
             blk = body.blocks[cur[1]]
-            if any(s['s'] == 'assign' for s in blk['stmts']) or blk['term']['t'] not in ('goto', 'falseedge'):
+            if blk['term']['t'] not in ('goto', 'falseedge'):
                 return cur
+            for s in blk['stmts']:
+                if s['s'] != 'assign':
+                    continue
+                rv = s['rv']
+                src = None
+                if rv['r'] == 'use' and rv['a'][0].get('k') in ('copy', 'move'):
+                    src = rv['a'][0]['pl']
+                elif rv['r'] in ('ref', 'copyderef'):
+                    src = rv['pl']
+                if key is None or src is None or s['pl']['p']:
+                    return cur
+                if not (src['l'] == key[0] and tuple(src['p'][:len(key[1])]) == key[1] and len(src['p']) > len(key[1]) and src['p'][len(key[1])].startswith('downcast:')):
+                    return cur
         cur = nxt
     return cur
 
@@ -628,7 +679,12 @@ def arm_regions(body, switch_block):
     t = body.blocks[switch_block]['term']
     edges = [('e', switch_block, str(v)) for v, _ in t['vals']] + [('e', switch_block, 'otherwise')]
     edges = [e for e in edges if e in body.reachable]
-    tgt = {e: _trivial_target(body, e) for e in edges}
+    try:
+        info = body.switch_info(switch_block)
+        mplace = info.get('place') if info.get('kind') == 'variant' else None
+    except Exception:
+        mplace = None
+    tgt = {e: _trivial_target(body, e, mplace) for e in edges}
     R = {}
     for e in edges:
         R[e] = body.reach_set(e, avoid={('b', switch_block)}) | {e}
@@ -1253,3 +1309,27 @@ def sem_alts(body, o, depth=0, want=None):
         else:
             out.append(a)
     return out
+
+
+def exit_error(body, x):
+    """the error value an error exit returns, as far as it is evident: ('variant', (adt, name)) for `Err(E::V)` and
+    for `opt.ok_or(E::V)?`; ('call', cs) when the error of another call is propagated by `?`; None otherwise"""
+    if x['kind'] == 'agg' and x['variant'] == 'Err':
+        v = agg_variant_of(body, x['rv']['a'][0])
+        return ('variant', v) if v else None
+    if x['kind'] == 'call' and x['cs'].is_(FROM_RESIDUAL) and x['cs'].args:
+        org = body.origin(x['cs'].args[0])
+        if org[0] == 'call' and org[1].is_(TRY_BRANCH) and org[1].args:
+            src = body.origin(org[1].args[0])
+            guard = 0
+            while src[0] == 'call' and guard < 6:
+                guard += 1
+                cs = src[1]
+                if cs.is_('core::option::Option::ok_or') and len(cs.args) == 2:
+                    v = agg_variant_of(body, cs.args[1])
+                    return ('variant', v) if v else None
+                if cs.declared in TRANSPARENT and cs.declared != 'core::result::Result::map_err' and cs.args:
+                    src = body.origin(cs.args[0])
+                    continue
+                return ('call', cs)
+    return None
